@@ -87,7 +87,7 @@ def lean_import_closure(module: str) -> list[Path]:
         files.append(p)
         for line in p.read_text().splitlines():
             mm = re.match(r"\s*import\s+([\w.]+)", line)
-            if mm and mm.group(1).split(".")[0] in ("Model", "Proofs", "Props"):
+            if mm and mm.group(1).split(".")[0] in ("Model", "Proofs", "Props", "Gen"):
                 todo.append(mm.group(1))
     return files
 
@@ -283,6 +283,7 @@ class Check:
             if c.returncode != 0:
                 problems.append("leanchecker rejected: " + (c.stdout + c.stderr)[-800:])
             self.gate["leanchecker"] = c.returncode == 0
+        problems = list(self.gate.get("problems") or []) + problems      # keep what pre_gate recorded
         self.gate["discharged"] = discharged if not [p for p in problems if "forbidden" in p or "build failed" in p] else 0
         self.gate["axioms"] = sorted(axioms_seen)
         self.gate["problems"] = problems
